@@ -110,7 +110,9 @@ EditsOf(t) == {SubSeq(t, 1, i - 1) \o SubSeq(t, i + 1, Len(t)) : i \in 1..Len(t)
               \cup {[t EXCEPT ![i] = c] : i \in 1..Len(t), c \in EditBytes}
               \cup {SubSeq(t, 1, i) \o <<c>> \o SubSeq(t, i + 1, Len(t)) : i \in 0..Len(t), c \in EditBytes}
 
-Extendable(t) == LET r == ParseBuf(t, FALSE) IN (r.ok /\ r.end = Len(t)) \/ (~r.ok /\ r.eof)
+\* a text is grown further while it is a complete value followed by nothing but bytes <= 0x20 (whitespace of the lenient dialect, zero bytes
+\* included: what follows them is where the termination rule is decided), or an incomplete one
+Extendable(t) == LET r == ParseBuf(t, FALSE) IN (r.ok /\ \A k \in (r.end + 1)..Len(t) : t[k] <= 32) \/ (~r.ok /\ r.eof)
 
 \* ---- the string decoder as a byte table ("strtable") -----------------------------------------------------
 \* copy[c]: the literal "c" is decoded to exactly the byte c;  valid[c]: that literal is an RFC 8259 text on its own (class A).
